@@ -113,7 +113,7 @@ def d14_matcher(known, case):
     return any(P11.d14_matcher(known, dict(range=d["python"])) for d in case.get("deps", []) if d.get("python")) or \
         (case.get("python") and P11.d14_matcher(known, dict(range=case["python"])))
 def d16_matcher(known, case):
-    return known.get("matcher") == "requires_python_of_a_union" and "||" in (case.get("python") or "")
+    return known.get("matcher") == "requires_python_of_a_union" and ("||" in (case.get("python") or "") or "!=" in (case.get("python") or ""))
 
 def run(tier):
     from poetry.core.constraints.version import parse_constraint, Version
@@ -123,7 +123,9 @@ def run(tier):
     F = common.Ref(); rng = R.rng
     for _ in range(120 if tier == "quick" else 3000):
         deps = [gen_dep(rng, i) for i in range(rng.randint(1, 4))]
-        python = rng.choice([">=3.8", "^3.9", ">=3.6,<4.0", "~3.10", ">=3.7", ">=2.7,<2.8 || >=3.6"])
+        python = rng.choice([">=3.8", "^3.9", ">=3.6,<4.0", "~3.10", ">=3.7", ">=2.7,<2.8 || >=3.6",
+                             # unions with a gap of several series, two-digit minors, patch-level bounds
+                             "~3.8 || >=3.11", "~2.7 || >=3.6.1", ">=3.7,!=3.10.*,!=3.11.*", ">=3.7.2,<3.9 || >=3.10.4,<4.0", "~3.9 || ~3.12", ">=3.6.1"])
         optional = [d["name"] for d in deps if d["optional"]]
         extras = {}
         if optional:
@@ -149,9 +151,21 @@ def run(tier):
         if fr[0] != "ok":
             R.fail(case, f"Requires-Python {rp!r} is not a reference specifier set")
         else:
-            for py, got in zip(INTERP, fr[1:]):
-                if got != pc.allows(Version.parse(py)):
-                    R.fail(case, f"Requires-Python {rp!r} admits {py} = {got}, declared python {python!r} says {not got}", d16_matcher); break
+            diffs = [(py, got) for py, got in zip(INTERP, fr[1:]) if got != pc.allows(Version.parse(py))]
+            if diffs:
+                # finding D16 is the by-design approximation of a union: minor-level granularity and no upper end beyond the table of
+                # known series (2.7, 3.0 .. 3.13).  Only a difference of that kind is D16 - Requires-Python admitting an interpreter of
+                # a series the declaration admits in part, or of a series outside the table; anything else is reported on its own
+                table = {(2, 7)} | {(3, i) for i in range(0, 14)}
+                mm = lambda py: tuple(int(x) for x in py.split(".")[:2])
+                adm = {mm(py) for py in INTERP if pc.allows(Version.parse(py))}
+                unexplained = [(py, got) for py, got in diffs if not (("||" in python or "!=" in python) and got and (mm(py) in adm or mm(py) not in table))]
+                if unexplained:
+                    py, got = unexplained[0]
+                    R.fail(case, f"Requires-Python {rp!r} admits {py} = {got}, declared python {python!r} says otherwise (and this is not the minor-level approximation of a union)")
+                else:
+                    py, got = diffs[0]
+                    R.fail(case, f"Requires-Python {rp!r} admits {py} = {got}, declared python {python!r} says {not got}", d16_matcher)
         if sorted(msg.get_all("Provides-Extra") or []) != sorted(extras): R.fail(case, f"Provides-Extra {msg.get_all('Provides-Extra')} != {sorted(extras)}")
         for d in deps:
             mine = [l for l in lines if canon(l.split(" ")[0].split(";")[0].split("(")[0].split("[")[0]) == canon(d["name"])]
